@@ -13,11 +13,18 @@ Rules == {"fill", "extend", "periodic"}
 Min2(x, y) == IF x < y THEN x ELSE y
 Max2(x, y) == IF x < y THEN y ELSE x
 \* lower = value at coordinate c-1, upper = value at c+1
-\* a missing value (NaN) is carried as the distinguished integer NaNv; every one of the four operators hands it on
+\* a missing value (NaN) is carried as the distinguished integer NaNv and the infinities as +/- InfV; the four
+\* operators treat them as IEEE arithmetic does (NaN is handed on; inf - inf and inf + (-inf) are NaN)
 NaNv == 2147483641
-Comb(op, lower, upper) == IF lower = NaNv \/ upper = NaNv THEN NaNv
-                          ELSE CASE op = "diff" -> upper - lower [] op = "interp" -> upper + lower
-                                 [] op = "min" -> Min2(lower, upper) [] op = "max" -> Max2(lower, upper)
+InfV == 2147483639
+IsInf(x) == x = InfV \/ x = -InfV
+Comb(op, lower, upper) ==
+  IF lower = NaNv \/ upper = NaNv THEN NaNv
+  ELSE CASE op = "diff" -> (IF IsInf(upper) /\ IsInf(lower) THEN (IF upper = lower THEN NaNv ELSE upper)
+                            ELSE IF IsInf(upper) THEN upper ELSE IF IsInf(lower) THEN -lower ELSE upper - lower)
+         [] op = "interp" -> (IF IsInf(upper) /\ IsInf(lower) THEN (IF upper = lower THEN upper ELSE NaNv)
+                              ELSE IF IsInf(upper) THEN upper ELSE IF IsInf(lower) THEN lower ELSE upper + lower)
+         [] op = "min" -> Min2(lower, upper) [] op = "max" -> Max2(lower, upper)
 
 ------------------------------------------------------------------------------
 \* Declarative layer: neighbours by coordinate
